@@ -99,7 +99,7 @@ impl<'a> SeqSerializer<'a> {
     requires old(self).cumulated_size < 0x7fff_ffff_0000_0000, old(self).idx < usize::MAX,
     ensures *final(self).se == *old(self).se, *final(final(self).se) == *final(old(self).se),
         r is Ok ==> final(self).idx == old(self).idx + 1
-            && final(self).cumulated_size == old(self).cumulated_size + sz(*value, elem_mode(old(self).se.seq_type, old(self).idx as int)),       // [C20.size.seq-elements-sized-as-written] every element is sized under the mode it is WRITTEN under (unit SERENTRY [C05.array.one-constructor]: in an Array the first element with its constructor, the later ones without; list elements each with their own) and counted once
+            && final(self).cumulated_size == old(self).cumulated_size + sz(*value, elem_mode(old(self).se.seq_type, old(self).idx as int)),       // [C20.size.seq-elements-sized-as-written] every element is sized under the mode it is WRITTEN under (unit SERENTRY, clause array.one-constructor: in an Array the first element with its constructor, the later ones without; list elements each with their own) and counted once
 //@@ end
 
 //@@ fn file=serde_amqp/src/size_ser.rs impl=`impl ser::SerializeSeq for SeqSerializer<'_>` name=end id=SeqSerializer::end
@@ -317,7 +317,7 @@ impl SizeSerializer {
         final(self).non_native_type is None && final(self).seq_type is None,
         r is Ok ==> ({
             let m0 = mode_of(*old(self));
-            // [C20.size.newtype-sized-under-its-marker] each AMQP-specific newtype is sized under the marker it is written under (unit SERENTRY [C03.newtype.marker-matches-type]): the same name -> marker table, or size and bytes part ways for symbols, timestamps, decimals, uuids and arrays
+            // [C20.size.newtype-sized-under-its-marker] each AMQP-specific newtype is sized under the marker it is written under (unit SERENTRY, clause newtype.marker-matches-type): the same name -> marker table, or size and bytes part ways for symbols, timestamps, decimals, uuids and arrays
             &&& name@ == SYMBOL@ ==> r->Ok_0 == sz(*value, Mode { marker: Some(NonNativeType::Symbol), ..m0 })
             &&& name@ == SYMBOL_REF@ ==> r->Ok_0 == sz(*value, Mode { marker: Some(NonNativeType::SymbolRef), ..m0 })
             &&& name@ == DECIMAL32@ ==> r->Ok_0 == sz(*value, Mode { marker: Some(NonNativeType::Dec32), ..m0 })
@@ -364,7 +364,7 @@ impl SizeSerializer {
         ({
             let e1 = r->Ok_0.se.struct_encoding@;
             let e0 = old(self).struct_encoding@;
-            // [C20.size.composite-encoding-by-name] the same name -> pending-encoding table as ser.rs (unit SERENTRY [C05.composite.encoding-by-name])
+            // [C20.size.composite-encoding-by-name] the same name -> pending-encoding table as ser.rs (unit SERENTRY, clause composite.encoding-by-name)
             &&& name@ == DESCRIBED_LIST@ ==> e1 == e0.push(StructEncoding::DescribedList)
             &&& name@ == DESCRIBED_MAP@ ==> e1 == e0.push(StructEncoding::DescribedMap)
             &&& name@ == DESCRIBED_BASIC@ ==> e1 == e0.push(StructEncoding::DescribedBasic)
